@@ -137,6 +137,10 @@ impl McNode {
         assert!(!self.is_crashed, "should not fire timer on crashed node");
         let proc_entry = self.processes.get_mut(&proc).unwrap();
         proc_entry.pending_timers.remove(&timer);
+        proc_entry.event_log.push(EventLogEntry::new(
+            0.0,
+            ProcessEvent::TimerFired { name: timer.clone() },
+        ));
 
         let mut proc_ctx = Context::basic(proc.to_string(), time, self.clock_skew, random_seed);
 
